@@ -158,17 +158,26 @@ struct server {
 	std::unique_ptr<cppcms::service> srv;
 	std::unique_ptr<booster::thread> thr;
 	std::atomic<bool> dead;
+	bool restart;   // asked for by the client side (service not reachable)
 	std::string exc;
 	std::mutex mx;
-	server():port(0),dead(false){}
+	server():port(0),dead(false),restart(false){}
 
+	// a port below the ephemeral range (so a connect() that races with the listener can never
+	// self-connect), checked to be free right now
 	static int free_port()
 	{
-		int fd=::socket(AF_INET,SOCK_STREAM,0);
-		struct sockaddr_in a; memset(&a,0,sizeof(a)); a.sin_family=AF_INET; a.sin_addr.s_addr=htonl(INADDR_LOOPBACK); a.sin_port=0;
-		::bind(fd,(struct sockaddr*)&a,sizeof(a));
-		socklen_t l=sizeof(a); ::getsockname(fd,(struct sockaddr*)&a,&l);
-		int p=ntohs(a.sin_port); ::close(fd); return p;
+		static unsigned seed = unsigned(getpid())*2654435761u ^ unsigned(time(0));
+		for(int tries=0;tries<200;tries++) {
+			seed = seed*1103515245u + 12345u;
+			int p = 12000 + int((seed>>8) % 18000);
+			int fd=::socket(AF_INET,SOCK_STREAM,0);
+			struct sockaddr_in a; memset(&a,0,sizeof(a)); a.sin_family=AF_INET; a.sin_addr.s_addr=htonl(INADDR_LOOPBACK); a.sin_port=htons(p);
+			int r=::bind(fd,(struct sockaddr*)&a,sizeof(a));
+			::close(fd);
+			if(r==0) return p;
+		}
+		return 0;
 	}
 	struct runner {
 		server *self;
@@ -330,7 +339,7 @@ struct farm {
 	server &get(std::string const &api)
 	{
 		std::unique_ptr<server> &p=m[api];
-		if(!p.get() || p->dead) {
+		if(!p.get() || p->dead || p->restart) {
 			if(p.get()) p->stop();
 			p.reset(new server());
 			p->start(api);
